@@ -10,7 +10,7 @@ def grid_prop(cases_q, cases_t, size=200, **kw):
 
 FAMS = {"fam:global": 0.08, "fam:sequence": 0.08, "fam:localp": 0.08, "fam:wavelet": 0.08, "fam:fourier": 0.06}
 PROPS = {
-    "C01": grid_prop(30000, 1200000, floors=dict(FAMS, **{"hist:construction": 0.05, "hist:refined": 0.2, "lp:d>=3": 0.01, "wave:o3": 0.02})),
+    "C01": grid_prop(60000, 1500000, floors=dict(FAMS, **{"hist:construction": 0.05, "hist:refined": 0.2, "lp:d>=3": 0.01, "wave:o3": 0.02})),
     "C04": grid_prop(12000, 500000, floors=dict(FAMS, **{"state:pending": 0.05, "state:merged": 0.02, "state:constructing": 0.03, "state:coeff-overwritten": 0.05, "batch>=32": 0.3, "x:support-boundary": 0.1})),
     "C07": grid_prop(15000, 600000, floors=dict(FAMS, **{"limits": 0.2, "scale:vector": 0.02, "scale:raw": 0.02, "classic:tol-gap": 0.05, "classic:tol0": 0.03, "merge": 0.03,
                      "strategy:classic": 0.01, "strategy:parents": 0.01, "strategy:direction": 0.01, "strategy:fds": 0.01, "strategy:stable": 0.01})),
@@ -50,3 +50,9 @@ META = {
                      "the restored grid must have a bitwise identical observable digest, re-write to identical bytes, agree across formats, and behave identically under a generated continuation. Exploration, not proof.",
                 note=_TB),
 }
+
+# work-in-progress fragments (developer aid): props_extra/<name>.py may define PROPS / META dicts that are merged in
+import glob as _glob, importlib.util as _ilu, os as _os
+for _f in sorted(_glob.glob(_os.path.join(_os.path.dirname(_os.path.abspath(__file__)), "props_extra", "*.py"))):
+    _spec = _ilu.spec_from_file_location("props_extra_" + _os.path.basename(_f)[:-3], _f); _m = _ilu.module_from_spec(_spec); _spec.loader.exec_module(_m)
+    PROPS.update(getattr(_m, "PROPS", {})); META.update(getattr(_m, "META", {}))
